@@ -495,6 +495,29 @@ def _third_party_keywords():
     return out
 
 
+class _ExprTok(object):
+    """a parsed tag expression in the harness: prints as ONE parenthesised unit, e.g. "( a or b )" (str(), format(), to_string())"""
+    abs_type = "Expression"
+
+    def __init__(self, src):
+        self.src = src
+
+    def abs_str(self):
+        return "( PRINTED<%s> )" % (self.src,)
+
+    def abs_truth(self):
+        return True
+
+    def abs_call(self, it_, st_, name, args, kwargs, node):
+        if name in ("to_string", "__str__") and not args:
+            return [(st_, "val", self.abs_str())]
+        from .absint import Unsupported
+        raise Unsupported("method %s of a parsed tag expression at %s" % (name, it_.loc(node)))
+
+    def __repr__(self):
+        return "Expr(%r)" % (self.src,)
+
+
 def check_protocol_use(chk, ix, rule):
     """the configured protocol is the one in force when the first expression is parsed, whatever an earlier
     Configuration left behind (TagExpressionProtocol.use / current keep ONE process-wide slot) - by evaluation"""
@@ -553,7 +576,7 @@ def check_protocol_use(chk, ix, rule):
             def mk(it_, s_, args, kw, node):
                 s2, c = current(it_, s_)
                 seen.append(c.name if isinstance(c, EnumVal) else repr(c))
-                return [(s2, "val", "EXPR")]
+                return [(s2, "val", _ExprTok("x"))]
             it = Interp(ix, stubs={"make_tag_expression": mk}, name="setup_tag_expression")
             it.int_sat = 50
             st = State()
@@ -586,15 +609,7 @@ def check_config_tags(chk, ix):
     check_protocol_use(chk, ix, "T5")
     f = ix.func("behave.configuration:Configuration.setup_tag_expression")
 
-    class Expr(object):
-        def __init__(self, src):
-            self.src = src
-
-        def abs_str(self):
-            return "PRINTED<%s>" % (self.src,)
-
-        def __repr__(self):
-            return "Expr(%r)" % (self.src,)
+    Expr = _ExprTok
     for cfg_tags, cli in (("@a or @b", "not {config.tags}"), (["@a or @b", "not @c"], "not {config.tags}"), ("@a", ["{config.tags}", "@x"])):
         parsed = []
 
@@ -621,7 +636,7 @@ def check_config_tags(chk, ix):
         if len(outs) != 1 or outs[0][1] != "val" or len(parsed) != 2:
             raise AnalysisError("setup_tag_expression not evaluable: %r / %r" % ([(k, v) for _, k, v in outs][:2], parsed))
         cfg_key = tuple(cfg_tags) if isinstance(cfg_tags, list) else cfg_tags
-        printed = "PRINTED<%s>" % (cfg_key,)
+        printed = "( PRINTED<%s> )" % (cfg_key,)
         final = parsed[1]
         final_text = " ".join(final) if isinstance(final, tuple) else final
         if parsed[0] == cfg_key and printed in final_text and "{config.tags}" not in final_text:
